@@ -53,6 +53,16 @@ CLAIMED = {
    note=TRUST + "StrLit.decode is a hand-written reference decoder validated against ast.literal_eval each run; float/complex/bytes texts are CPython's repr (opaque).",
    technique="Coq proof: per-code-point lemma from a vm_compute-checked table, lifted by induction to all strings; structural induction for the one-line theorem; string correspondence + reparse oracle",
    ref="5/C04"),
+ "C08": dict(
+   text="Theorems over the converter model: C08_dispatch_table (the converted statement kinds are exactly the keys of the code's "
+        "dispatch table, regenerated each run); C08_unsupported_stmt_rejected / _module_rejected - by structural induction over "
+        "statements: a statement kind outside the table at ANY nesting depth and position the traversal reaches makes conversion fail; "
+        "yield / yield from / await are refused by the expression rewriter; break/continue outside a loop and return outside a "
+        "function are refused; a second starred target is refused (C13_two_stars_rejected). Statements after a literal "
+        "break/continue/return in the same block are never converted (they cannot run) and are outside the statement.",
+   note=TRUST + "That the rewriter reaches every sub-expression and that Lower.v mirrors the traversal is tied by AST/error-class correspondence on programs with every unsupported construct injected at every reachable position.",
+   technique="Coq proof by structural induction over the statement AST (custom nested induction principle) + generated dispatch table + injection-based correspondence/oracle",
+   ref="5/C08"),
 }
 PENDING_REASON = "not yet built in this round: model/theorem under construction (see DESIGN.md section 8 build order); not claimed until its minimum is proved and tied"
 ALL = [f"C{i:02d}" for i in range(1, 18)]
